@@ -68,6 +68,24 @@ def precheck_common(case, obs):
     return None
 
 
+def clock_moved_while_paused(obs):
+    """the system clock read at the pause, at the beginning / end of every save inside it and just before the resume:
+    once a pause has been acknowledged the clock does not advance (C01), and a state written meanwhile carries that
+    value (C04).  Returns a description of the first change, or None."""
+    frozen = None
+    for e in obs.get("timeline") or []:
+        if e[0] == "pause" and len(e) > 3:
+            frozen = e[3]
+        elif e[0] in ("save_b", "save_e", "resume") and len(e) > 3 and frozen is not None:
+            if e[3] != frozen:
+                return f"clock {frozen!r} at the pause, {e[3]!r} at {e[0]}"
+            if e[0] == "resume":
+                frozen = None
+        elif e[0] == "resume":
+            frozen = None
+    return None
+
+
 def shrink(case):
     out = []
     cmds = case.get("cmds", [])
